@@ -12,6 +12,7 @@ import (
 	"github.com/libp2p/go-libp2p/core/network"
 
 	"verifsim/harness/common"
+	"verifsim/simnet"
 	"verifsim/simrt"
 )
 
@@ -55,21 +56,27 @@ type chanState struct {
 	rDone      bool
 	prevEdge1  bool // previous read was a 1-byte read that consumed the last byte of a (notional) frame
 
-	viol []common.Violation
-	hist []string
-	arena []byte
+	wviol, rviol []common.Violation // writer / reader task each own one (they may run at the same instant)
+	wlog, rlog   []string
+	arena        []byte
 }
 
-func (c *chanState) logf(format string, a ...any) {
-	if len(c.hist) < 48 {
-		c.hist = append(c.hist, fmt.Sprintf(format, a...))
-	} else if len(c.hist) == 48 {
-		c.hist = append(c.hist, "...")
+func logTo(l *[]string, format string, a ...any) {
+	if len(*l) < 40 {
+		*l = append(*l, fmt.Sprintf(format, a...))
+	} else if len(*l) == 40 {
+		*l = append(*l, "...")
 	}
 }
 
+func (c *chanState) wlogf(format string, a ...any) { logTo(&c.wlog, format, a...) }
+func (c *chanState) rlogf(format string, a ...any) { logTo(&c.rlog, format, a...) }
+
+func (c *chanState) wviolate(class, format string, a ...any) {
+	c.wviol = append(c.wviol, common.Violation{Class: class, Detail: c.id + ": " + fmt.Sprintf(format, a...)})
+}
 func (c *chanState) violate(class, format string, a ...any) {
-	c.viol = append(c.viol, common.Violation{Class: class, Detail: c.id + ": " + fmt.Sprintf(format, a...)})
+	c.rviol = append(c.rviol, common.Violation{Class: class, Detail: c.id + ": " + fmt.Sprintf(format, a...)})
 }
 
 // suffix of data-fidelity classes: what had happened to this run / reader before (keeps findings apart).
@@ -143,7 +150,7 @@ func (c *chanState) resolve(b bufSpec) int {
 	if size < 1 {
 		size = 1
 	}
-	if c.w.p.mode != 2 { // not Tiny: the payload can be large
+	if c.w.p.mode != simnet.Tiny { // not Tiny: the payload can be large
 		if size < 256 && c.reads >= tinyBudget {
 			size += 8192
 		} else if size < 4096 && c.reads >= midBudget {
@@ -178,13 +185,13 @@ func (c *chanState) writer(e *end) {
 		n, err := e.rw.Write(buf)
 		s1 := simrt.Stamp()
 		w.progress.Add(1)
-		c.logf("[%d..%d] Write(%d bytes @%d) = %d, %s", s0, s1, sz, pos, n, errKind(err))
+		c.wlogf("[%d..%d] Write(%d bytes @%d) = %d, %s", s0, s1, sz, pos, n, errKind(err))
 		if string(buf) != string(c.t.exp[pos:pos+sz]) {
 			copy(buf, c.t.exp[pos:pos+sz])
-			c.violate("C02/write-modified-buffer/"+w.layer(), "Write(%d bytes at offset %d) changed the caller's buffer", sz, pos)
+			c.wviolate("C02/write-modified-buffer/"+w.layer(), "Write(%d bytes at offset %d) changed the caller's buffer", sz, pos)
 		}
 		if n < 0 || n > sz {
-			c.violate("C02/write-count-out-of-range/"+w.layer(), "Write(%d bytes at offset %d) returned n=%d", sz, pos, n)
+			c.wviolate("C02/write-count-out-of-range/"+w.layer(), "Write(%d bytes at offset %d) returned n=%d", sz, pos, n)
 			c.wErr = "violation"
 			return
 		}
@@ -195,7 +202,7 @@ func (c *chanState) writer(e *end) {
 			return
 		}
 		if n != sz {
-			c.violate("C02/short-write-without-error/"+w.layer(), "Write(%d bytes at offset %d) returned n=%d and a nil error", sz, pos-n, n)
+			c.wviolate("C02/short-write-without-error/"+w.layer(), "Write(%d bytes at offset %d) returned n=%d and a nil error", sz, pos-n, n)
 			c.wErr = "violation"
 			return
 		}
@@ -208,7 +215,7 @@ func (c *chanState) writer(e *end) {
 	s0 := simrt.Stamp()
 	err := e.closeW()
 	w.progress.Add(1)
-	c.logf("[%d..%d] CloseWrite() = %s", s0, simrt.Stamp(), errKind(err))
+	c.wlogf("[%d..%d] CloseWrite() = %s", s0, simrt.Stamp(), errKind(err))
 	if err != nil {
 		c.wErr, c.wErrText = "close-"+errKind(err), err.Error()
 	}
@@ -253,7 +260,7 @@ func (c *chanState) reader(e *end) {
 		c.reads++
 		kind := errKind(err)
 		if n != 0 || err != nil || c.zeroRun == 0 {
-			c.logf("[%d..%d] Read(buf %d, cap %d) @%d = %d, %s", s0, s1, size, len(full), startOff, n, kind)
+			c.rlogf("[%d..%d] Read(buf %d, cap %d) @%d = %d, %s", s0, s1, size, len(full), startOff, n, kind)
 		}
 		// --- oracles on this call ---
 		if n < 0 || n > size {
@@ -355,7 +362,7 @@ func (c *chanState) afterEOF(e *end) {
 		s0 := simrt.Stamp()
 		n, err := e.rw.Read(buf)
 		w.progress.Add(1)
-		c.logf("[%d..%d] Read(buf 16) after EOF = %d, %s", s0, simrt.Stamp(), n, errKind(err))
+		c.rlogf("[%d..%d] Read(buf 16) after EOF = %d, %s", s0, simrt.Stamp(), n, errKind(err))
 		if n != 0 {
 			c.violate("C02/data-after-eof/"+w.layer()+c.ctx(), "Read #%d after EOF at offset %d returned %d bytes (%s)", k+1, c.off, n, errKind(err))
 			return
